@@ -179,13 +179,18 @@ impl Parser {
     }
 
     fn next(&mut self) -> Result<Option<&(usize, Token)>> {
+        // end of the token that is left behind, if any
+        let prev_end = self.is_started.then(|| self.scan.position());
         if !self.is_started {
             self.is_started = true;
         }
+        // comments in front of the token that is left behind do not document what follows
+        self.lead_comments.clear();
         let mut line = 0;
         let mut pos_tok = self.scan_next()?;
         while let Some((pos, Token::Comment(text))) = pos_tok {
-            if self.scan.line_info(pos).0 > line + 1 {
+            let (comment_line, column) = self.scan.line_info(pos);
+            if comment_line > line + 1 {
                 self.lead_comments.clear();
             }
 
@@ -196,7 +201,10 @@ impl Parser {
             if self.comments.last().map_or(true, |last| last.pos < pos) {
                 self.comments.push(comment.clone());
             }
-            self.lead_comments.push(comment.clone());
+            // a comment that starts on the line of the previous token trails that token
+            if prev_end.map_or(true, |end| pos - column > end) {
+                self.lead_comments.push(comment.clone());
+            }
             pos_tok = self.scan_next()?;
         }
 
@@ -810,6 +818,7 @@ impl Parser {
     }
 
     fn field_decl(&mut self) -> Result<ast::Field> {
+        let comments = self.drain_comments();
         match &self.current {
             Some((_, Token::Literal(LitKind::Ident, _))) => {
                 let name = self.identifier()?;
@@ -821,7 +830,6 @@ impl Parser {
                     )) => {
                         let typ = self.qualified_ident(Some(name))?;
                         let tag = self.string_literal_or_none()?;
-                        let comments = self.drain_comments();
                         Ok(ast::Field { name: vec![], typ, tag, comments })
                     }
                     _ => {
@@ -834,7 +842,6 @@ impl Parser {
                                 typ.left = Box::new(ast::Expression::Ident(name));
                                 let tag = self.string_literal_or_none()?;
                                 let typ = ast::Expression::Index(typ);
-                                let comments = self.drain_comments();
                                 return Ok(ast::Field { name: vec![], typ, tag, comments });
                             }
                             typ
@@ -843,7 +850,6 @@ impl Parser {
                         };
 
                         let tag = self.string_literal_or_none()?;
-                        let comments = self.drain_comments();
                         Ok(ast::Field { name, typ, tag, comments })
                     }
                 }
@@ -853,7 +859,6 @@ impl Parser {
                 self.next()?;
                 let typ = self.qualified_ident(None)?;
                 let tag = self.string_literal_or_none()?;
-                let comments = self.drain_comments();
                 Ok(ast::Field { name: vec![], typ, tag, comments })
             }
 
